@@ -85,3 +85,22 @@ Theorem C02_present_redact_bind_build_verify :
       verifier_verify O (prefix ++ kb)%string true = Val (hdr0, drop_alg (proj H enc (ownS H (selected h)) t)).
 Proof. exact present_redact_bind_build_verify. Qed.
 Print Assumptions C02_present_redact_bind_build_verify.
+
+(* Sessions: the operations on one Holder object may be interleaved in any order and repeated; the k-th build is the
+   presentation of the state reached by everything before it - all redactions made so far (before or after earlier
+   builds), the key-binding parameters supplied last - and building changes nothing. *)
+Require Import SDJ.Sessions.
+Theorem C02_session_every_build_is_the_presentation_of_the_state_before_it :
+  forall O pre E post h,
+  exists outs_pre outs_post,
+    snd (hrun O h (pre ++ HBuild E :: post)) = (outs_pre ++ holder_build O E (fst (hrun O h pre)) :: outs_post)%list /\
+    outs_pre = snd (hrun O h pre).
+Proof. exact session_builds. Qed.
+Print Assumptions C02_session_every_build_is_the_presentation_of_the_state_before_it.
+
+Theorem C02_session_state :
+  forall O ops h,
+  fst (hrun O h ops) = {| h_jwt := h_jwt h; h_redacted := (h_redacted h ++ redactions ops)%list;
+                          h_paths := h_paths h; h_kb := last_kb (h_kb h) ops |}.
+Proof. exact hrun_state. Qed.
+Print Assumptions C02_session_state.
